@@ -1,8 +1,252 @@
-/- PyodaModel.Bridge — placeholder until the area is modelled. -/
-import PyodaModel.Prelude
+/-
+  PyodaModel.Bridge — conversions between Pyoda Time values and the standard library's datetime types.
+  Transcribed from LocalDate.to_date/from_date, LocalTime.to_time/from_time,
+  LocalDateTime.to_naive_datetime/from_naive_datetime, Instant.to_datetime_utc/from_aware_datetime,
+  OffsetDateTime.to_aware_datetime/from_aware_datetime, Duration.to_timedelta/from_timedelta,
+  Offset.to_timedelta/from_timedelta and `_to_ticks`.
+
+  Standard-library values are integers:
+    date      = proleptic Gregorian ordinal 1 … 3 652 059 (day number = ordinal − 719 163),
+    time      = microsecond of day 0 … 86 399 999 999,
+    datetime  = (ordinal, microsecond of day), aware datetime = + fixed utc offset in seconds,
+    timedelta = (days, seconds, microseconds) normalised as CPython does, |days| ≤ 999 999 999.
+  The year/month/day and hour/minute/second fields through which the code builds `datetime(...)` are modelled
+  for the time part (hour, minute, second, microsecond are computed as the code does and recombined as CPython
+  does); for the date part the Gregorian y/m/d ↔ ordinal round trip of both libraries is C01/C02 + stdlib
+  (trusted base), so the model goes day number ↔ ordinal directly and `gregorian.year < 1` is `ordinal < 1`.
+-/
+import PyodaModel.OffsetTypes
 
 namespace Pyoda.Bridge
+open Pyoda
 
-def handle (_toks : List String) : Option String := none
+def ORD_EPOCH : Int := 719163          -- date(1970,1,1).toordinal()
+def MAX_ORD : Int := 3652059           -- date.max.toordinal()
+def UsPS : Int := 1000000
+def UsPH : Int := 3600000000
+def UsPMin : Int := 60000000
+def TD_MAX_DAYS : Int := 999999999
+def BCL_DAYS : Int := 719162           -- PyodaConstants._BCL_DAYS_AT_UNIX_EPOCH
+def TPMin : Int := 600000000
+def TPUs : Int := 10
+
+def isoCal : Cal := ⟨0, -4371222, 2932896⟩
+def gregCal : Cal := ⟨1, -4371222, 2932896⟩
+
+/-! ### the standard library side -/
+
+structure PyTimedelta where
+  days : Int
+  seconds : Int
+  micros : Int
+  deriving DecidableEq, Repr, Inhabited
+
+namespace PyTimedelta
+def totalUs (t : PyTimedelta) : Int := t.days * UsPD + t.seconds * UsPS + t.micros
+/-- `timedelta(...)` from an exact number of microseconds: floor-normalised, `OverflowError` beyond ±999 999 999 days -/
+def ofUs (us : Int) : R PyTimedelta :=
+  let d := us / UsPD
+  let r := us % UsPD
+  if d < -TD_MAX_DAYS ∨ d > TD_MAX_DAYS then .error .overflowError
+  else .ok ⟨d, r / UsPS, r % UsPS⟩
+def wf (t : PyTimedelta) : Prop :=
+  -TD_MAX_DAYS ≤ t.days ∧ t.days ≤ TD_MAX_DAYS ∧ 0 ≤ t.seconds ∧ t.seconds < SPD ∧ 0 ≤ t.micros ∧ t.micros < UsPS
+end PyTimedelta
+
+structure PyDateTime where
+  ord : Int
+  us : Int
+  deriving DecidableEq, Repr, Inhabited
+
+namespace PyDateTime
+def wf (x : PyDateTime) : Prop := 1 ≤ x.ord ∧ x.ord ≤ MAX_ORD ∧ 0 ≤ x.us ∧ x.us < UsPD
+/-- `datetime + timedelta` -/
+def addTd (x : PyDateTime) (t : PyTimedelta) : R PyDateTime :=
+  let tot := x.ord * UsPD + x.us + t.totalUs
+  let o := tot / UsPD
+  if 0 < o ∧ o ≤ MAX_ORD then .ok ⟨o, tot % UsPD⟩ else .error .overflowError
+/-- `datetime - datetime` (both naive) -/
+def sub (a b : PyDateTime) : PyTimedelta :=
+  let us := (a.ord - b.ord) * UsPD + (a.us - b.us)
+  ⟨us / UsPD, us % UsPD / UsPS, us % UsPD % UsPS⟩
+/-- `datetime(year, month, day, hour, minute, second, microsecond)` with the date given by its ordinal:
+    field validation (`ValueError`), then the microsecond of day -/
+def ofFields (ord h m s us : Int) : R PyDateTime := do
+  checkRange ord 1 MAX_ORD
+  checkRange h 0 23
+  checkRange m 0 59
+  checkRange s 0 59
+  checkRange us 0 999999
+  .ok ⟨ord, h * UsPH + m * UsPMin + s * UsPS + us⟩
+end PyDateTime
+
+/-- `date + timedelta` -/
+def dateAddTd (ord : Int) (t : PyTimedelta) : R Int :=
+  let o := ord + t.days
+  if 0 < o ∧ o ≤ MAX_ORD then .ok o else .error .overflowError
+
+/-! ### `_to_ticks` -/
+
+def toTicksTd (t : PyTimedelta) : Int := t.days * TPD + t.seconds * TPS + t.micros * TPUs
+/-- naive or aware datetime (the tzinfo is dropped): ticks since 0001-01-01 -/
+def toTicksDt (x : PyDateTime) : Int := toTicksTd (PyDateTime.sub x ⟨1, 0⟩)
+
+/-! ### LocalDate -/
+
+/-- `LocalDate.to_date`: `date(1970, 1, 1) + timedelta(days=days_since_epoch)` -/
+def dateToPy (d : Date) : R Int := do
+  let t ← PyTimedelta.ofUs (d.days * UsPD)
+  dateAddTd ORD_EPOCH t
+
+/-- `LocalDate.from_date`: always ISO -/
+def dateFromPy (ord : Int) : R Date := Date.ofDays isoCal (ord - ORD_EPOCH)
+
+/-! ### LocalTime (a nanosecond of day) -/
+
+def ltHour (nod : Int) : R Int := pyTdiv (nod >>> 13) 439453125
+def ltMinute (nod : Int) : R Int := do let m ← pyTdiv (nod >>> 11) 29296875; .ok (csharpMod m 60)
+def ltSecond (nod : Int) : R Int := do let s ← pyTdiv nod NPS; .ok (csharpMod s 60)
+def ltNanoOfSecond (nod : Int) : Int := int32Overflow (csharpMod nod NPS)
+/-- `LocalTime.microsecond` -/
+def ltMicrosecond (nod : Int) : R Int := do let u ← pyTdiv nod NPUs; .ok (csharpMod u 1000000)
+
+/-- `LocalTime.to_time`: `time(hour, minute, second, microsecond=nanosecond_of_second // 1000)` -/
+def timeToPy (nod : Int) : R Int := do
+  let h ← ltHour nod
+  let m ← ltMinute nod
+  let s ← ltSecond nod
+  let us ← pyTdiv (ltNanoOfSecond nod) NPUs
+  let x ← PyDateTime.ofFields 1 h m s us
+  .ok x.us
+
+/-- `LocalTime.from_time` (stdlib time = microsecond of day, read back through its fields) -/
+def timeFromPy (us : Int) : R Int := do
+  let h := us / UsPH
+  let m := us % UsPH / UsPMin
+  let s := us % UsPMin / UsPS
+  let u := us % UsPS
+  let ticks := h * TPH + m * TPMin + s * TPS + u * TPUs
+  checkRange ticks 0 (TPD - 1)
+  .ok (int64Overflow (ticks * NPT))
+
+/-! ### LocalDateTime = (date, nanosecond of day) -/
+
+/-- `LocalDateTime.to_naive_datetime` (guard `year < 1`; the snapshot had `<=` and rejected year 1:
+    DESIGN section 7 row 11, repaired in /repo commit 8ffa823) -/
+def ldtToPy (d : Date) (nod : Int) : R PyDateTime := do
+  let g ← d.withCalendar gregCal
+  let ord := g.days + ORD_EPOCH
+  if ord < 1 then .error .runtimeError
+  else do
+    let h ← ltHour nod
+    let m ← ltMinute nod
+    let s ← ltSecond nod
+    let us ← ltMicrosecond nod
+    PyDateTime.ofFields ord h m s us
+
+/-- `LocalDateTime.from_naive_datetime(dt, calendar)` -/
+def ldtFromPy (x : PyDateTime) (c : Cal) : R (Date × Int) := do
+  let (days, tod) ← Duration.ticksToDaysAndTickOfDay (toTicksDt x)
+  let d ← Date.ofDays c (days - BCL_DAYS)
+  .ok (d, tod * NPT)
+
+/-! ### Instant -/
+
+def bclEpoch : Instant := ⟨⟨-BCL_DAYS, 0⟩⟩
+
+/-- `Instant.to_datetime_utc` (the result's tzinfo is UTC) -/
+def instToPy (i : Instant) : R PyDateTime :=
+  if Duration.lt i.dur bclEpoch.dur then .error .runtimeError
+  else do
+    let us ← pyTdiv i.dur.nod NPUs
+    let t ← PyTimedelta.ofUs (i.dur.days * UsPD + us)
+    PyDateTime.addTd ⟨ORD_EPOCH, 0⟩ t
+
+/-- `Instant.from_aware_datetime` with a fixed-offset tzinfo of `off` seconds -/
+def instFromPy (x : PyDateTime) (off : Int) : R Instant := do
+  let t ← PyTimedelta.ofUs (off * UsPS)
+  Instant.plusTicks bclEpoch (toTicksDt x - toTicksTd t)
+
+/-! ### Offset and Duration ↔ timedelta -/
+
+/-- `Offset.to_timedelta` -/
+def offToPy (o : Offset) : R PyTimedelta := PyTimedelta.ofUs (o.seconds * UsPS)
+
+/-- `Offset.from_timedelta`: `total_seconds() * 10^7` truncated — exact in the float domain of a timedelta
+    (harness suite `bridge.ops` ties this to CPython around every whole second) -/
+def offFromPy (t : PyTimedelta) : R Offset := do
+  let ticks := t.totalUs * TPUs
+  checkRange ticks (-18 * TPH) (18 * TPH)
+  Offset.fromTicks ticks
+
+/-- `Duration.to_timedelta`: `timedelta(days=self.days, microseconds=nanosecond_of_day // 1000 toward zero)` -/
+def durToPy (d : Duration) : R PyTimedelta := do
+  let us ← pyTdiv d.nanosecondOfDay NPUs
+  PyTimedelta.ofUs (d.daysAcc * UsPD + us)
+
+/-- `Duration.from_timedelta` -/
+def durFromPy (t : PyTimedelta) : R Duration := do
+  let a ← Duration.fromDays t.days
+  let b ← Duration.fromSeconds t.seconds
+  let c ← Duration.fromMicroseconds t.micros
+  let ab ← Duration.add a b
+  Duration.add ab c
+
+/-! ### OffsetDateTime -/
+
+/-- `OffsetDateTime.to_aware_datetime`: (naive value, utc offset seconds) -/
+def odtToPy (x : OffsetDateTime) : R (PyDateTime × Int) := do
+  let g ← x.withCalendar gregCal
+  let off := x.offsetSeconds
+  -- `timezone(timedelta(seconds=off))` needs |off| < 24 h
+  if off ≤ -SPD ∨ off ≥ SPD then .error .valueError
+  else do
+    let n ← ldtToPy g.date g.nanosecondOfDay
+    .ok (n, off)
+
+/-- `OffsetDateTime.from_aware_datetime` with a fixed-offset tzinfo of `off` seconds -/
+def odtFromPy (x : PyDateTime) (off : Int) : R OffsetDateTime := do
+  let (d, nod) ← ldtFromPy x isoCal
+  let t ← PyTimedelta.ofUs (off * UsPS)
+  let o ← offFromPy t
+  .ok (OffsetDateTime.ofLocal d nod o)
+
+/-! ### line protocol -/
+
+def showTd : R PyTimedelta → String := showR (fun t => showInts [t.days, t.seconds, t.micros])
+def showDt : R PyDateTime → String := showR (fun x => showInts [x.ord, x.us])
+def showI : R Int → String := showR toString
+
+def handleInts (op : String) (a : List Int) : Option String :=
+  match op, a with
+  | "br.date.to", [ord, mn, mx, days] => some (showI (dateToPy ⟨⟨ord, mn, mx⟩, days⟩))
+  | "br.date.from", [o] => some (showR (fun (d : Date) => showInts [d.cal.ord, d.days]) (dateFromPy o))
+  | "br.time.to", [nod] => some (showI (timeToPy nod))
+  | "br.time.from", [us] => some (showI (timeFromPy us))
+  | "br.ldt.to", [ord, mn, mx, days, nod] => some (showDt (ldtToPy ⟨⟨ord, mn, mx⟩, days⟩ nod))
+  | "br.ldt.from", [o, us, ord, mn, mx] =>
+      some (showR (fun (p : Date × Int) => showInts [p.1.cal.ord, p.1.days, p.2]) (ldtFromPy ⟨o, us⟩ ⟨ord, mn, mx⟩))
+  | "br.inst.to", [days, nod] => some (showDt (instToPy ⟨⟨days, nod⟩⟩))
+  | "br.inst.from", [o, us, off] => some (Elapsed.showInst (instFromPy ⟨o, us⟩ off))
+  | "br.odt.to", [ord, mn, mx, days, nod, off] =>
+      if !OffsetTime.inPackDomain nod then some "!dom" else
+      some (showR (fun (p : PyDateTime × Int) => showInts [p.1.ord, p.1.us, p.2]) (odtToPy (OffsetTypes.mkOdt ord mn mx days nod off)))
+  | "br.odt.from", [o, us, off] => some (OffsetTypes.showOdt (odtFromPy ⟨o, us⟩ off))
+  | "br.dur.to", [days, nod] => some (showTd (durToPy ⟨days, nod⟩))
+  | "br.dur.from", [d, s, u] => some (Elapsed.showDur (durFromPy ⟨d, s, u⟩))
+  | "br.off.to", [s] => some (showTd (offToPy ⟨s⟩))
+  | "br.off.from", [d, s, u] => some (Elapsed.showOff (offFromPy ⟨d, s, u⟩))
+  | "br.ticks.dt", [o, us] => some (toString (toTicksDt ⟨o, us⟩))
+  | "br.ticks.td", [d, s, u] => some (toString (toTicksTd ⟨d, s, u⟩))
+  | _, _ => none
+
+def handle (toks : List String) : Option String :=
+  match toks with
+  | op :: rest =>
+    if op.startsWith "br." then do
+      let a ← parseInts? rest
+      handleInts op a
+    else none
+  | [] => none
 
 end Pyoda.Bridge
